@@ -1,6 +1,7 @@
 import FsnVerif.Proofs.InotifyLemmas
 import FsnVerif.Proofs.ALLemmas
 import FsnVerif.Proofs.DecodeLemmas
+import FsnVerif.Proofs.PathLemmas
 /-!
 # C08 — Event names are spelled relative to the caller's Add argument (model side)
 
@@ -64,6 +65,10 @@ theorem first_alias_wins (l : Lib) (env : Env) (arg : Path) (ops : BitVec 32) (n
   have : (wd != 0) = true := by simpa using hne
   simp only [this, if_true]
   rw [alLookup_erase_other _ _ _ hne, alLookup_insert_same]
+
+/-- the cleaned argument is stable: cleaning it again (as `Remove` and `removePath` do) changes nothing,
+so Add, Remove and the stored path agree on one spelling -/
+theorem clean_idempotent (p : Path) : clean (clean p) = clean p := clean_idem p
 
 /-- the name never depends on anything but the stored path and the record: in particular not on
 the file system (no link is ever resolved when naming an event) -/
